@@ -20,13 +20,17 @@ namespace eventpp {
 
 namespace adapter_internal_ {
 
+// The cast of a parameter that is not a shared_ptr is written at the call site, in the
+// full expression that calls the listener: when the cast has to convert (e.g. int to
+// const Number &) the temporary it creates must live until the listener returns. Casting
+// inside a helper function returned a reference to a temporary that was already destroyed.
 template <typename T>
 struct StaticCast
 {
 	template <typename U>
-	static T cast(U && value)
+	static U && cast(U && value)
 	{
-		return static_cast<T>(value);
+		return std::forward<U>(value);
 	}
 };
 
@@ -104,7 +108,7 @@ struct ArgumentAdapter <
 
 	template <typename ...A>
 	void operator() (A &&...args) {
-		func(std::forward<Args>(adapter_internal_::StaticCast<Args>::cast(args))...);
+		func(std::forward<Args>(static_cast<Args>(adapter_internal_::StaticCast<Args>::cast(args)))...);
 	}
 
 	Func func;
